@@ -1,9 +1,11 @@
 (* C11 — calibration fitness is the declared figure of merit on the declared data.
    Only statements here; proofs live in Proofs/FitnessChecker.v and Proofs/FitnessSum.v.
    Gen_C11.src_checker is regenerated from pyxel/calibration/util.py on every run
-   (_check_out_fit_ranges, FitRange2D.check, FitRange3D.check, dispatch of check_fit_ranges). *)
+   (_check_out_fit_ranges, FitRange2D.check, FitRange3D.check, dispatch of check_fit_ranges);
+   Gen_C11.src_calls from the two calls of check_fit_ranges in ModelFittingDataTree.__init__
+   (pyxel/calibration/fitting_datatree.py): which sizes are passed as rows / cols / readout_times. *)
 From Coq Require Import ZArith QArith List Bool.
-From PyxelV Require Import Model.Fitness Proofs.FitnessChecker Proofs.FitnessSum.
+From PyxelV Require Import Model.Fitness Proofs.FitnessChecker Proofs.FitnessSum Proofs.FitnessMeets.
 From PyxelGen Require Import Gen_C11.
 Import ListNotations.
 
@@ -12,52 +14,114 @@ Theorem C11_src_checker_is_coded : src_checker = coded_checker.
 Proof. vm_compute. reflexivity. Qed.
 Print Assumptions C11_src_checker_is_coded.
 
+(* the constructor validates the ranges against the size of the TARGET data read from file *)
+Theorem C11_src_calls_are_coded : src_calls = coded_calls.
+Proof. vm_compute. reflexivity. Qed.
+Print Assumptions C11_src_calls_are_coded.
+
+(* declared weights reach the fitness function for single- and multi-readout targets alike, and a
+   scalar weight is expanded to the shape of the fitted target region *)
+Theorem C11_src_weights_are_coded : src_weights = coded_wconf.
+Proof. vm_compute. reflexivity. Qed.
+Print Assumptions C11_src_weights_are_coded.
+
 (* ------------------------------------------------------------------ range checker *)
 
-(* accepted => equal extent in every compared dimension and target range inside the target *)
-Definition C11_checker_sound_full : Prop := checker_sound_full src_checker.
-(* equal extents inside the target => accepted *)
-Definition C11_checker_complete_full : Prop := checker_complete_full src_checker.
+(* for all declared ranges (ordered, non-negative numbers; absent components allowed), target sizes
+   and readout counts:
+   accepted => equal extent in every compared dimension and target range inside the target *)
+Theorem C11_checker_sound : checker_sound_full src_checker.
+Proof. rewrite C11_src_checker_is_coded. exact coded_sound. Qed.
+Print Assumptions C11_checker_sound.
 
-(* target rows 0..5 / result rows 2..5 (3 rows) is accepted *)
-Theorem C11_checker_sound_refuted : ~ C11_checker_sound_full.
-Proof. unfold C11_checker_sound_full. rewrite C11_src_checker_is_coded. exact coded_sound_refuted. Qed.
-Print Assumptions C11_checker_sound_refuted.
+(* equal extents inside the target => accepted (shifted ranges and absent components included) *)
+Theorem C11_checker_complete : checker_complete_full src_checker.
+Proof. rewrite C11_src_checker_is_coded. exact coded_complete. Qed.
+Print Assumptions C11_checker_complete.
 
-(* target rows 0..5 / result rows 3..8 (5 rows each) is rejected *)
-Theorem C11_checker_complete_refuted : ~ C11_checker_complete_full.
-Proof. unfold C11_checker_complete_full. rewrite C11_src_checker_is_coded. exact coded_complete_refuted. Qed.
-Print Assumptions C11_checker_complete_refuted.
-
-(* no range declared (the default configuration): legitimate, yet the checker raises TypeError *)
-Theorem C11_checker_absent_refuted :
-  in_domain w_absent_t w_absent_o 5 5 None = true /\
-  spec_ok w_absent_t w_absent_o 5 5 None = true /\
-  check src_checker (Some w_absent_t) (Some w_absent_o) 5 5 None = Crash.
-Proof. rewrite C11_src_checker_is_coded. exact coded_absent_crashes. Qed.
-Print Assumptions C11_checker_absent_refuted.
-
-(* strongest true restriction: when every compared stop is given and result and target ranges start
-   at the same index, the checker accepts exactly the pairs of equal extent inside the target *)
-Theorem C11_checker_partial : forall t o rows cols times,
-  in_domain t o rows cols times = true -> anchored t o = true ->
+(* together: the checker decides exactly the specification *)
+Theorem C11_checker_decides : forall t o rows cols times,
+  in_domain t o rows cols times = true ->
   (check src_checker (Some t) (Some o) rows cols times = Accept <-> spec_ok t o rows cols times = true).
-Proof. rewrite C11_src_checker_is_coded. exact coded_partial. Qed.
-Print Assumptions C11_checker_partial.
+Proof.
+  intros t o rows cols times Hd. split.
+  - apply C11_checker_sound; exact Hd.
+  - apply C11_checker_complete; exact Hd.
+Qed.
+Print Assumptions C11_checker_decides.
 
-Example C11_checker_partial_nonvacuous_accept :
+(* non-vacuity: accepted and rejected instances inside the domain; the formerly failing inputs
+   (unequal extent with equal stops / shifted equal extent / nothing declared) now come out right *)
+Example C11_checker_nonvacuous_accept :
   let t := FR2 (Some 1, Some 3)%Z (Some 0, Some 4)%Z in
-  let o := FR3 (None, None) (Some 1, Some 3)%Z (None, Some 4)%Z in
-  in_domain t o 3 4 None = true /\ anchored t o = true /\ spec_ok t o 3 4 None = true /\
+  let o := FR3 (None, None) (Some 4, Some 6)%Z (None, Some 4)%Z in
+  in_domain t o 3 4 None = true /\ spec_ok t o 3 4 None = true /\
   check src_checker (Some t) (Some o) 3 4 None = Accept.
 Proof. vm_compute. auto. Qed.
 
-Example C11_checker_partial_nonvacuous_reject :
+Example C11_checker_nonvacuous_reject :
   let t := FR3 (Some 0, Some 3)%Z (Some 1, Some 3)%Z (Some 0, Some 5)%Z in
   let o := FR3 (Some 0, Some 3)%Z (Some 1, Some 3)%Z (Some 0, Some 5)%Z in
-  in_domain t o 3 4 (Some 3%Z) = true /\ anchored t o = true /\ spec_ok t o 3 4 (Some 3%Z) = false /\
+  in_domain t o 3 4 (Some 3%Z) = true /\ spec_ok t o 3 4 (Some 3%Z) = false /\
   check src_checker (Some t) (Some o) 3 4 (Some 3%Z) = Reject.
 Proof. vm_compute. auto. Qed.
+
+Example C11_checker_former_witnesses :
+  check src_checker (Some w_sound_t) (Some w_sound_o) 5 5 None = Reject /\
+  check src_checker (Some w_compl_t) (Some w_compl_o) 5 5 None = Accept /\
+  in_domain w_absent_t w_absent_o 5 5 None = true /\
+  check src_checker (Some w_absent_t) (Some w_absent_o) 5 5 None = Accept.
+Proof. vm_compute. auto. Qed.
+
+(* the statements are discriminating: the comparisons of the tree before the repair (stop indices
+   compared, absent components not handled) satisfy neither *)
+Example C11_checker_statements_exclude_legacy :
+  ~ checker_sound_full legacy_checker /\ ~ checker_complete_full legacy_checker /\
+  check legacy_checker (Some w_absent_t) (Some w_absent_o) 5 5 None = Crash.
+Proof.
+  split; [exact legacy_sound_refuted | split; [exact legacy_complete_refuted | apply legacy_absent_crashes]].
+Qed.
+
+(* ------------------------------------------------------------------ ranges exceeding the target *)
+
+(* whatever the result range, the geometry of the detector and the readout: if the constructor's
+   call of check_fit_ranges accepts a target range, that range lies inside the target data read
+   from file (0 <= start <= stop <= size), in every dimension it names *)
+Theorem C11_ctor_rejects_exceeding : forall c sims,
+  ctor_check src_checker src_calls c sims = Accept -> target_inside c = true.
+Proof. rewrite C11_src_checker_is_coded, C11_src_calls_are_coded. exact coded_ctor_inside. Qed.
+Print Assumptions C11_ctor_rejects_exceeding.
+
+(* ... so no problem object exists (nothing is optimised) for a target range exceeding the target *)
+Theorem C11_exceeding_never_optimised : forall c sims,
+  fc_bypass c = false ->
+  model_fit src_checker src_calls src_weights c sims <> OCtor -> target_inside c = true.
+Proof. rewrite C11_src_checker_is_coded, C11_src_calls_are_coded. exact (coded_model_fit_inside src_weights). Qed.
+Print Assumptions C11_exceeding_never_optimised.
+
+(* a 2 x 3 target on a 4 x 3 detector: rows 0..2 are accepted, rows 1..3 (inside the detector, beyond
+   the target) are refused; validated against the detector frame instead they would be accepted *)
+Definition ex_small (r0 r1 : Z) : fconf :=
+  {| fc_ff := FAbs; fc_multi := false;
+     fc_trng := FR2 (Some r0, Some r1) (Some 0, Some 3)%Z;
+     fc_orng := FR3 (None, None) (Some r0, Some r1) (Some 0, Some 3)%Z;
+     fc_drows := 4%Z; fc_dcols := 3%Z; fc_w := WNone;
+     fc_tgts := [ [ [[Some 1; Some 2; Some 3]; [Some 4; Some 5; Some 6]] ] ]%Q; fc_bypass := false |}.
+Definition ex_small_sims : list frame3 :=
+  [ [ [[Some 1; Some 1; Some 1]; [Some 1; Some 1; Some 1]; [Some 1; Some 1; Some 1]; [Some 1; Some 1; Some 1]] ] ]%Q.
+Definition detector_calls : calls :=
+  {| call_single := {| cs_rows := QDet DRow; cs_cols := QDet DCol; cs_times := QAbsent |};
+     call_multi := {| cs_rows := QDet DRow; cs_cols := QDet DCol; cs_times := QDet DTime |} |}.
+
+Example C11_ctor_rejects_exceeding_nonvacuous :
+  ctor_check src_checker src_calls (ex_small 0 2) ex_small_sims = Accept /\
+  target_inside (ex_small 0 2) = true /\
+  spec_fit (ex_small 0 2) ex_small_sims = Some (OVal (15 # 1)) /\
+  ctor_check src_checker src_calls (ex_small 1 3) ex_small_sims = Reject /\
+  target_inside (ex_small 1 3) = false /\
+  spec_fit (ex_small 1 3) ex_small_sims = Some OCtor /\
+  ctor_check src_checker detector_calls (ex_small 1 3) ex_small_sims = Accept.
+Proof. vm_compute. repeat split; reflexivity. Qed.
 
 (* ------------------------------------------------------------------ fitness = declared sum *)
 
@@ -94,11 +158,11 @@ Theorem C11_fitness_zip_prefix :
 Proof. intros A B. exact (@loop_is_declared_prefix A B). Qed.
 Print Assumptions C11_fitness_zip_prefix.
 
-(* single readout: the term the code computes for pair k (result restricted to the result range,
-   target restricted at construction, weight k) is the declared term *)
-Theorem C11_term_is_declared : forall c k sim tgt tr tc,
-  fc_trng c = FR2 tr tc ->
-  term_coded c (fc_w c) k sim (map (slice2 tr tc) tgt) = term_declared c k sim tgt.
+(* the term the code computes for pair k (result restricted to the result range, target restricted at
+   construction with the 2-D or 3-D target range, weight k restricted likewise) is the declared term *)
+Theorem C11_term_is_declared : forall c k sim tgt,
+  term_coded c (fc_w c) k sim (let '(tm, tr, tc) := out_slices (fc_trng c) in slice3 tm tr tc tgt)
+  = term_declared c k sim tgt.
 Proof. exact term_coded_is_declared. Qed.
 Print Assumptions C11_term_is_declared.
 
@@ -112,12 +176,41 @@ Definition ex_conf (multi : bool) : fconf :=
      fc_tgts := [ [ [[Some 0]]; [[Some 0]] ] ]; fc_bypass := false |}.
 Definition ex_sims : list frame3 := [ [ [[Some 1]]; [[Some 1]] ] ].
 
-(* multi-readout targets: the declared weights are dropped (value 2 instead of 3 * 2) *)
-Theorem C11_weights_multi_refuted :
+(* the problem object as a whole (2-D and 3-D target ranges, single- and multi-readout targets, no
+   weights / scalar weights / weight files alike; no target left without a processor): whenever
+   problem.fitness yields anything at all, it is the declared figure of merit — the configured
+   function applied to result[result range] and target[target range] with the weight of pair k,
+   summed over ALL targets *)
+Theorem C11_fitness_is_declared : forall c sims,
+  (length (fc_tgts c) <= length sims)%nat ->
+  model_fit src_checker src_calls src_weights c sims = OCtor \/
+  model_fit src_checker src_calls src_weights c sims = OUndef \/
+  model_fit src_checker src_calls src_weights c sims = fobs_of (declared_sum (term_declared c) sims (fc_tgts c)).
+Proof. rewrite C11_src_weights_are_coded. intros c sims. apply model_fit_is_declared. Qed.
+Print Assumptions C11_fitness_is_declared.
+
+(* multi-readout target with a scalar weight 3: value 3 * 2 (the weights used to be dropped: 2);
+   the statement is discriminating: with the weights configuration of the tree before the repair the
+   same configuration gives 2 *)
+Example C11_fitness_is_declared_nonvacuous :
   spec_fit (ex_conf true) ex_sims = Some (OVal (6 # 1)) /\
-  fobs_agree true (model_fit src_checker (ex_conf true) ex_sims) (OVal (2 # 1)) = true.
+  model_fit src_checker src_calls src_weights (ex_conf true) ex_sims = OVal (6 # 1) /\
+  fobs_agree true (model_fit src_checker src_calls legacy_wconf (ex_conf true) ex_sims) (OVal (2 # 1)) = true.
 Proof. vm_compute. auto. Qed.
-Print Assumptions C11_weights_multi_refuted.
+
+(* a 3-D target range on a time-domain target (readout times 1..3 of the target against 0..2 of the
+   result): |3-1| + |5-2| = 5; before the repair no 6-value target range could be used at all *)
+Example C11_fitness_is_declared_3d :
+  let c := {| fc_ff := FAbs; fc_multi := true;
+              fc_trng := FR3 (Some 1, Some 3)%Z (Some 0, Some 1)%Z (Some 0, Some 1)%Z;
+              fc_orng := FR3 (Some 0, Some 2)%Z (Some 0, Some 1)%Z (Some 0, Some 1)%Z;
+              fc_drows := 1%Z; fc_dcols := 1%Z; fc_w := WNone;
+              fc_tgts := [ [ [[Some 9]]; [[Some 3]]; [[Some 5]] ] ]; fc_bypass := false |} in
+  let sims := [ [ [[Some 1]]; [[Some 2]]; [[Some 7]] ] ] in
+  model_fit src_checker src_calls src_weights c sims = OVal (5 # 1) /\
+  spec_fit c sims = Some (OVal (5 # 1)) /\
+  model_fit src_checker src_calls legacy_wconf c sims = OCtor.
+Proof. vm_compute. auto. Qed.
 
 Example C11_fitness_is_sum_nonvacuous :
   let c := {| fc_ff := FSq; fc_multi := false;
@@ -127,9 +220,84 @@ Example C11_fitness_is_sum_nonvacuous :
               fc_tgts := [ [ [[Some 0; Some 1]] ]; [ [[Some 3; None]] ] ]; fc_bypass := false |} in
   let sims := [ [ [[Some 1; Some 3]] ]; [ [[Some 1; Some 7]] ] ] in
   (* 2*(1+4) + 5*(4) = 30; model = specification *)
-  fobs_agree true (model_fit src_checker c sims) (OVal (30 # 1)) = true /\
+  fobs_agree true (model_fit src_checker src_calls src_weights c sims) (OVal (30 # 1)) = true /\
   spec_fit c sims = Some (OVal (30 # 1)).
 Proof. vm_compute. auto. Qed.
+
+(* ------------------------------------------------------------------ the model meets the specification *)
+
+(* The specification used to judge the implementation (spec_fit: refuse exactly the configurations
+   whose ranges exceed the target or select regions of different extent; otherwise the declared figure
+   of merit) against the model of the problem object as coded (constructor check on the sizes the call
+   sites pass, slicing, weights, accumulation loop).  Full statement: *)
+Definition C11_model_meets_spec_full : Prop := forall c sims e,
+  fc_bypass c = false -> spec_fit c sims = Some e ->
+  model_fit src_checker src_calls src_weights c sims = e.
+
+(* refuted by the open findings.  Witnesses: (F6d) detector 2 x 2, target file 2 x 4, ranges rows 0..2 /
+   cols 0..3: has to be refused, is constructed (the result range is never compared with the frame);
+   (F6e) readout with 2 steps, target file with 1 step, 2-D target range: constructed;
+   (zip) one processor, two targets: the second target is ignored *)
+Definition ex_f6d : fconf :=
+  {| fc_ff := FAbs; fc_multi := false;
+     fc_trng := FR2 (Some 0, Some 2)%Z (Some 0, Some 3)%Z;
+     fc_orng := FR3 (None, None) (Some 0, Some 2)%Z (Some 0, Some 3)%Z;
+     fc_drows := 2%Z; fc_dcols := 2%Z; fc_w := WNone;
+     fc_tgts := [ [ [[Some 1; Some 2; Some 3; Some 4]; [Some 5; Some 6; Some 7; Some 8]] ] ]%Q; fc_bypass := false |}.
+Definition ex_f6d_sims : list frame3 := [ [ [[Some 1; Some 1]; [Some 1; Some 1]] ] ]%Q.
+Definition ex_f6e : fconf :=
+  {| fc_ff := FAbs; fc_multi := true;
+     fc_trng := FR2 (Some 0, Some 1)%Z (Some 0, Some 1)%Z;
+     fc_orng := FR3 (Some 0, Some 2)%Z (Some 0, Some 1)%Z (Some 0, Some 1)%Z;
+     fc_drows := 1%Z; fc_dcols := 1%Z; fc_w := WNone;
+     fc_tgts := [ [ [[Some 5]] ] ]%Q; fc_bypass := false |}.
+Definition ex_f6e_sims : list frame3 := [ [ [[Some 1]]; [[Some 2]] ] ]%Q.
+Definition ex_zip : fconf :=
+  {| fc_ff := FAbs; fc_multi := false;
+     fc_trng := FR2 (Some 0, Some 1)%Z (Some 0, Some 1)%Z;
+     fc_orng := FR3 (None, None) (Some 0, Some 1)%Z (Some 0, Some 1)%Z;
+     fc_drows := 1%Z; fc_dcols := 1%Z; fc_w := WNone;
+     fc_tgts := [ [ [[Some 5]] ]; [ [[Some 9]] ] ]%Q; fc_bypass := false |}.
+Definition ex_zip_sims : list frame3 := [ [ [[Some 1]] ] ]%Q.
+
+Theorem C11_model_meets_spec_refuted :
+  ~ C11_model_meets_spec_full /\
+  (spec_fit ex_f6d ex_f6d_sims = Some OCtor /\ model_fit src_checker src_calls src_weights ex_f6d ex_f6d_sims = OUndef) /\
+  (spec_fit ex_f6e ex_f6e_sims = Some OCtor /\ model_fit src_checker src_calls src_weights ex_f6e ex_f6e_sims = OUndef) /\
+  (spec_fit ex_zip ex_zip_sims = Some (OVal (12 # 1)) /\
+   fobs_agree true (model_fit src_checker src_calls src_weights ex_zip ex_zip_sims) (OVal (4 # 1)) = true).
+Proof.
+  split; [|vm_compute; auto 10].
+  intro H. specialize (H ex_f6d ex_f6d_sims OCtor eq_refl). vm_compute in H. specialize (H eq_refl). discriminate.
+Qed.
+Print Assumptions C11_model_meets_spec_refuted.
+
+(* strongest true restriction = outside the input classes of those three findings: no target without
+   a processor (zip), the result range lies inside the simulated frame and an open result stop means
+   the same size as the target's (F6d), with a 2-D target range the result selects as many readout
+   times as the target has (F6e).  Then, for every configuration the specification judges
+   (2-D and 3-D target ranges, single- and multi-readout targets, all three functions, no / scalar /
+   file weights, targets smaller or larger than the frame): refused exactly when it has to be, and
+   otherwise problem.fitness is the declared figure of merit. *)
+Theorem C11_model_meets_spec_partial : forall c sims e,
+  fc_bypass c = false ->
+  (length (fc_tgts c) <= length sims)%nat ->
+  frame_covers c sims = true -> time_2d_ok c sims = true ->
+  spec_fit c sims = Some e ->
+  model_fit src_checker src_calls src_weights c sims = e.
+Proof.
+  rewrite C11_src_checker_is_coded, C11_src_calls_are_coded, C11_src_weights_are_coded. exact model_meets_spec.
+Qed.
+Print Assumptions C11_model_meets_spec_partial.
+
+(* non-vacuity: an accepted and a refused configuration meet all hypotheses (2 x 3 target on a 4 x 3
+   detector; 3-D target range shifted in time) *)
+Example C11_model_meets_spec_nonvacuous :
+  frame_covers (ex_small 0 2) ex_small_sims = true /\ time_2d_ok (ex_small 0 2) ex_small_sims = true /\
+  spec_fit (ex_small 0 2) ex_small_sims = Some (OVal (15 # 1)) /\
+  frame_covers (ex_small 1 3) ex_small_sims = true /\ time_2d_ok (ex_small 1 3) ex_small_sims = true /\
+  spec_fit (ex_small 1 3) ex_small_sims = Some OCtor.
+Proof. vm_compute. repeat split; reflexivity. Qed.
 
 (* ------------------------------------------------------------------ champions *)
 
